@@ -769,3 +769,41 @@ def replay_instruction_exhaustion(viol):
     with open(path, "w") as f:
         json.dump(rec, f, indent=1)
     return rec
+
+
+# ---------------------------------------------------------------- C06/C09 (clause order in index buckets)
+ORD_PROGRAM = """
+:- use_module(library(lists)).
+:- dynamic(d/2).
+show(X) :- write(X), nl.
+% clauses whose first arguments share one index key, added in the order z1 a2 z3 a4 z5 (z = assertz,
+% a = asserta): database order is 4 2 1 3 5
+fill(K) :- retractall(d(_,_)), copy_term(K, K1), assertz(d(K1,1)), copy_term(K, K2), asserta(d(K2,2)),
+           copy_term(K, K3), assertz(d(K3,3)), copy_term(K, K4), asserta(d(K4,4)), copy_term(K, K5), assertz(d(K5,5)).
+% the same with clauses of other kinds in between (several index lines, a variable clause)
+mixed(K) :- retractall(d(_,_)), assertz(d(other, 10)), copy_term(K, K1), assertz(d(K1,1)), assertz(d(g(1), 11)),
+            copy_term(K, K2), asserta(d(K2,2)), assertz(d([q], 12)), copy_term(K, K3), assertz(d(K3,3)),
+            copy_term(K, K4), asserta(d(K4,4)), assertz(d(7, 13)).
+"""
+
+
+def replay_clause_order(viol, prop="C06"):
+    keys = ["a", "7", "f(_)", "f(x)", "[x|_]", "[_|_]", "\"st\"", "[]", "2.5"]
+    cases = []
+    for k in keys:
+        cases.append(("fill(%s), findall(N, d(%s, N), L), show(L)" % (k, k), "[4,2,1,3,5]"))
+        cases.append(("fill(%s), findall(N, d(_, N), L), show(L)" % k, "[4,2,1,3,5]"))
+        cases.append(("mixed(%s), findall(N, (d(%s, N), N < 10), L), show(L)" % (k, k), "[4,2,1,3]"))
+        cases.append(("mixed(%s), findall(N, (d(_, N), N < 10), L), show(L)" % k, "[4,2,1,3]"))
+    # one constant-keyed clause in the first block, a later block after a variable clause, then
+    # asserta / assertz of a clause with another key: every bound call still finds its clauses
+    for k1, k2, k0 in (("1", "2", "0"), ("a", "b", "c"), ("f(_)", "g(_)", "h(_)")):
+        for how, want_all in (("asserta", "[z,p,q,r]"), ("assertz", "[p,q,r,z]")):
+            setup = ("retractall(d(_,_)), assertz(d(%s,p)), assertz(d(_,q)), assertz(d(%s,r)), %s(d(%s,z))" % (
+                k1, k2, how, k0))
+            cases.append(("%s, findall(T, d(_, T), L), show(L)" % setup, want_all))
+            cases.append(("%s, findall(T, d(%s, T), L), show(L)" % (setup, k1), "[p,q]"))
+            cases.append(("%s, findall(T, d(%s, T), L), show(L)" % (setup, k2), "[q,r]"))
+            cases.append(("%s, findall(T, d(%s, T), L), show(L)" % (setup, k0),
+                          "[z,q]" if how == "asserta" else "[q,z]"))
+    return run_cases(ORD_PROGRAM, cases, {"model": viol}, prop, "clause_order", batch=True)
